@@ -689,7 +689,7 @@ int main(int argc, char** argv) {
   // names
   for (Function& F : *M) {
     std::string nm = F.getName().str();
-    static const std::set<std::string> libc = {"strlen", "memcmp", "memchr", "strcmp", "strncmp", "bcmp", "abort", "free", "malloc", "memcpy", "memmove", "memset"};
+    static const std::set<std::string> libc = {"strlen", "memcmp", "memchr", "strcmp", "strncmp", "bcmp", "abort", "free", "malloc", "memcpy", "memmove", "memset", "nan", "nanf"};
     if (F.isIntrinsic()) nm = "verif_" + sanitize(nm);
     else if (F.isDeclaration() && libc.count(nm)) { nm = "verif_libc_" + nm; libc_renamed.insert(&F); }
     else nm = sanitize(nm);
